@@ -537,6 +537,17 @@ pub fn shapes() -> Vec<Model> {
         }
         out.push(msg1(vec![g(1, vec![("v", MVal::Other { tag: 0x39, data: r.bytes(n) })])], vec![]));
     }
+    // the signed-16-bit boundary and a few "implementation constant" sizes, as names and as values
+    for &n in &[127usize, 128, 1023, 1024, 4095, 4096, 4097, 8192, 16384, 32766, 32767, 32768, 65534] {
+        let sv = utf8_exact(&mut r, n);
+        out.push(msg1(vec![g(1, vec![("v", MVal::Text { tag: 0x30, s: sv.clone() })])], vec![]));
+        out.push(msg1(vec![g(1, vec![]), g(4, vec![("k", MVal::Set(vec![MVal::Text { tag: 0x44, s: "a".into() }, MVal::Text { tag: 0x41, s: sv }]))])], vec![1, 2, 3]));
+        if n <= 32768 {
+            let name = utf8_exact(&mut r, n);
+            out.push(msg1(vec![g(1, vec![(name.as_str(), MVal::Boolean(true))])], vec![]));
+        }
+        out.push(msg1(vec![g(1, vec![("o", MVal::Other { tag: 0x39, data: r.bytes(n) })])], vec![]));
+    }
     for &l in &[0usize, 1, 255, 256, 65531] {
         let lang = utf8_exact(&mut r, l);
         let s = utf8_exact(&mut r, 65531 - l);
